@@ -222,6 +222,7 @@ class Rewriter:
         t = s('R1.noexcept', r'\bnoexcept\b', '', t)
         # R2 casts
         t = s('R2.static_cast', r'\b(?:static_cast|reinterpret_cast|const_cast)\s*<\s*([^<>]*?(?:<[^<>]*>)?[^<>]*?)\s*>\s*\(', r'(\1)(', t)
+        t = s('R2.funcast', r'(?<![\w.>:])(double|float|int64_t|uint64_t|size_t|int)\s*\((?!\s*\))', r'(\1)(', t)
         # R7 enums
         for e in ENUMS:
             t = s('R7.enum', r'\b' + e + r'::(\w+)', e + r'_\1', t)
